@@ -83,7 +83,8 @@ fn observe(w: &mut World, wn: &str) -> Value {
 		proj.insert(s.to_string(), json!(hex8(v.to_string().as_bytes())));
 	}
 	let readable = o.get("outs").is_some();
-	json!({"files": files, "proj": proj, "readable": readable,
+	let full = if std::env::var("VERIF_MASK_DEBUG").is_ok() { o.clone() } else { Value::Null };
+	json!({"files": files, "proj": proj, "readable": readable, "full": full,
 		"nouts": o["outs"].as_object().map(|m| m.len()).unwrap_or(0),
 		"ntxs": o["txs"].as_object().map(|m| m.len()).unwrap_or(0),
 		"nctx": o["ctxs"].as_object().map(|m| m.len()).unwrap_or(0),
